@@ -65,6 +65,8 @@ def candidate_lines(path):
 
 def crate_of(rel):
     top = rel.split("/")[0]
+    if top == "curves":
+        return "curves"   # separate workspace: no offline `cargo check`; the harness2 build is the compile check
     return {"ff": "ark-ff", "ec": "ark-ec", "poly": "ark-poly", "serialize": "ark-serialize", "ff-macros": "ark-ff-macros",
             "serialize-derive": "ark-serialize-derive", "test-curves": "ark-test-curves"}.get(top)
 
@@ -75,7 +77,8 @@ attempts = 0
 while done < n and attempts < 6 * n:
     attempts += 1
     pid = rng.choice(props)
-    files = [f for f in P[pid]["anchors"]["files"] if crate_of(f) and os.path.exists(f"{WT}/{f}")]
+    files = [f for f in P[pid]["anchors"]["files"] if crate_of(f) and os.path.exists(f"{WT}/{f}")
+             and f.startswith(os.environ.get("MUT_PREFIX", ""))]
     if not files:
         continue
     rel = rng.choice(files)
@@ -99,7 +102,10 @@ while done < n and attempts < 6 * n:
     new[li] = mutated
     open(f"{WT}/{rel}", "w").write("\n".join(new))
     crate = crate_of(rel)
-    rc, out = sh(["cargo", "check", "--offline", "-q", "-p", crate], cwd=WT, timeout=1200)
+    if crate == "curves":
+        rc, out = 0, ""
+    else:
+        rc, out = sh(["cargo", "check", "--offline", "-q", "-p", crate], cwd=WT, timeout=1200)
     rec = {"prop": pid, "file": rel, "line": li + 1, "before": src[li].strip(), "after": mutated.strip(), "t": time.strftime("%H:%M:%S")}
     if rc != 0:
         rec["result"] = "nocompile"
@@ -117,6 +123,9 @@ while done < n and attempts < 6 * n:
                 o, rc_ = pr.stdout.decode("utf-8", "replace"), pr.returncode
             except subprocess.TimeoutExpired:
                 o, rc_ = "", 124
+            if "no longer compiles" in o or "does not build" in o:
+                rec["result"] = "nocompile"
+                break
             rec["tried"].append([q, rc_])
             if rc_ in (1, 124, 137):
                 # a mutant that makes the real code loop forever hangs the harness: counted as killed(hang)
